@@ -11,6 +11,7 @@ use pv::fl::Fl;
 use pv::{json, Collector, Ctx, Mode, Tier, Value};
 
 mod ints;
+mod intoforms;
 
 fn same<T: Fl>(a: T, b: T) -> bool {
     a.bits64() == b.bits64() || a.to64() == b.to64()
@@ -591,6 +592,14 @@ fn replay(c: &mut Collector, rep: &Value) {
             }
             with_graph!(group.as_str(), float.as_str(), |g| go(&g, &path, &b, c));
         }
+        "into-forms" => {
+            let ctx = Ctx { only: Some("into-forms".into()), ..Ctx::from_args("C03").0 };
+            let mut all = Collector::new();
+            intoforms::run(&ctx, &mut all);
+            let want = rep["signature"].as_str().unwrap_or("").to_string();
+            all.viol.retain(|k, _| *k == want);
+            c.merge(all);
+        }
         "integer" => {
             // small complete spaces: the whole sub-check is re-run and only the replayed signature kept
             let ctx = Ctx { only: Some("integer".into()), ..Ctx::from_args("C03").0 };
@@ -649,6 +658,7 @@ fn real_main() -> i32 {
     }
     let mut total = Collector::new();
     ints::run(&ctx, &mut total);
+    intoforms::run(&ctx, &mut total);
     run_types::<f32>(&ctx, &specs_for!(f32), &mut total);
     run_types::<f64>(&ctx, &specs_for!(f64), &mut total);
     let dense = ctx.tier == Tier::Thorough;
